@@ -130,6 +130,20 @@ THEORY = [
 ]
 
 
+def whole_rules():
+    A_, F_ = ('atom', 'a'), ('next', None, ('atom', 'b'))
+    heads = [('norm', 'a', 0), ('norm', 'a', 1), ('norm', 'a', 2), ('disj', ['a', 'b']), ('choice', ['a', 'b']), ('cons',), ('tel', ('or', A_, F_))]
+    lits = [('patom', 'b', 0), ('patom', 'b', 1), ('patom', 'b', 3), ('fatom', 'b', 1), ('fatom', 'b', 2), ('iatom', 'b'), ('kw', 'initial'), ('kw', 'final'), ('tel', ('prev', None, A_)), ('del', ('dia', ('skip',), A_))]
+    out = []
+    for part in ('initial', 'always', 'dynamic', 'final'):
+        for h in heads:
+            for l in lits:
+                for s in 'pnm':
+                    out.append([{'part': part, 'head': h, 'body': [(s, l)]}])
+            out.append([{'part': part, 'head': h, 'body': [('p', ('patom', 'b', 0)), ('n', ('fatom', 'b', 1)), ('m', ('tel', A_))]}])
+    return out
+
+
 def run(ctx):
     rows = table(ctx)
     impl = ctx.impl().run([{'cmd': 'transform', 'texts': [r['text']]} for r in rows], timeout=20)
@@ -176,7 +190,16 @@ def run(ctx):
     tm = ctx.model().run(['thctx %d %d' % (n, c) for n in (0, 1) for c in (0, 1)])
     if tm != ['reject reject', 'accept accept', 'accept accept', 'accept accept']:
         cex.append({'key': 'c11:thctx', 'what': 'regenerated theory-atom context test is %s' % tm, 'input': {'text': 'theory context table'}})
-    cov = {'evaluations': len(rows) + len(treqs), 'distinct_nontrivial': len(rows) + len(treqs), 'exhaustive': True,
+    # whole rules: every head form x every body literal form x sign x part, accepted or rejected, against the transformer model (which rejects a rule
+    # exactly if an atom stands at a forbidden placement: C11_rule_accepted_iff_every_placement_is_allowed) - and, when accepted, rewritten alike
+    import ftstruct
+    wr = whole_rules()
+    wstat = {}
+    for p_, r_ in zip(wr, ftstruct.compare(ctx, wr)):
+        wstat[r_['status']] = wstat.get(r_['status'], 0) + 1
+        if r_['status'] not in ('agree', 'agree-rejected'):
+            cex.append({'key': 'c11:rule:' + r_['program'].replace('\n', ' '), 'what': 'transform() and Model/FutTransform.transform_program differ: %s' % r_.get('what'), 'input': {'transform_rules': p_, 'program': r_['program']}})
+    cov = {'evaluations': len(rows) + len(treqs) + len(wr), 'whole_rule_status': wstat, 'distinct_nontrivial': len(rows) + len(treqs), 'exhaustive': True,
            'rule': 'exhaustive: %d syntactic positions x %d atom forms x %d parts through transformers.transform, compared with the extracted Model/Ctx.decide (class, rewritten atom, '
                    'look-ahead part, location in the diagnostic); plus %d theory-atom placements x 2 parts; every case is distinct and decides acceptance' % (
                        len(POSITIONS), len(FORMS), len(PARTS if not ctx.quick else ['always', 'final']), len(THEORY)),
@@ -193,6 +216,9 @@ def replay(ctx, payload):
         a = ctx.impl().run([req])[0]
         got = 'accept' if a.get('status') == 'ok' else ('reject' if a.get('type') == 'RuntimeError' else 'internal')
         return got != exp.split('-')[0]
+    if 'transform_rules' in inp:
+        import ftstruct
+        return ftstruct.compare(ctx, [inp['transform_rules']])[0]['status'] not in ('agree', 'agree-rejected')
     if 'line' not in inp:
         return False
     a = ctx.impl().run([{'cmd': 'transform', 'texts': [inp['text']]}])[0]
